@@ -19,6 +19,8 @@ const verifRoot = "/verif"
 // propPkgs: which packages carry contracts for a property.
 var propPkgs = map[string][]string{
 	"C17": {"./internal/tools/bitmask"},
+	"C01": {"./internal/index"},
+	"C18": {"./internal/tools/regexAnalysis"},
 }
 
 type Finding struct {
@@ -82,7 +84,7 @@ func cmdCheck(args []string) {
 	seed, _ := strconv.Atoi(os.Getenv("VERIF_SEED"))
 	t0 := time.Now()
 	pkgs := propPkgs[prop]
-	if len(pkgs) == 0 {
+	if len(pkgs) == 0 && len(propStandins[prop]) == 0 {
 		fmt.Fprintf(os.Stderr, "property %s has no contracts (see MANIFEST not_applicable)\n", prop)
 		os.Exit(2)
 	}
@@ -260,6 +262,42 @@ func cmdCheck(args []string) {
 			}
 		}
 	}
+	// bounded stand-ins (never counted as obligations)
+	var standinEv []map[string]any
+	for _, sd := range propStandins[prop] {
+		r := runStandin(sd, *tier)
+		ev := map[string]any{"name": sd.Name, "bounded": true, "bound": sd.Bound, "evaluations": r.Evaluations, "distinct_nontrivial": r.Nontrivial, "samples": r.Samples, "seconds": r.Secs, "failures": len(r.Failures)}
+		if r.Err != "" {
+			ev["error"] = r.Err
+			path := writeReplay(prop, "standin_"+sd.Name+"_error", map[string]any{"property": prop, "obligation": "standin:" + sd.Name, "error": r.Err})
+			violations = append(violations, fmt.Sprintf("VIOLATION property=%s replay=%s no-failing-input-found\n  stand-in %s could not run: %s", prop, path, sd.Name, truncate(r.Err, 300)))
+		}
+		byClass := map[string][]map[string]string{}
+		for _, f := range r.Failures {
+			byClass[f["class"]] = append(byClass[f["class"]], f)
+		}
+		var classes []string
+		for c := range byClass {
+			classes = append(classes, c)
+		}
+		sort.Strings(classes)
+		for _, c := range classes {
+			fs := byClass[c]
+			name := "standin:" + sd.Name + ":" + c
+			if f, ok := known[name]; ok {
+				knownHit = append(knownHit, fmt.Sprintf("KNOWN-FINDING: property=%s %s (%d inputs, e.g. %s): %s", prop, name, len(fs), fs[0]["input"], f.Text))
+				continue
+			}
+			n := len(fs)
+			if n > 20 {
+				fs = fs[:20]
+			}
+			path := writeReplay(prop, oblFile(name), map[string]any{"property": prop, "obligation": name, "bounded_standin": sd.Name, "failing_inputs": fs, "total_failing": n,
+				"replay": map[string]any{"replayed": true, "how": "the stand-in runs the real functions; rerun: ./check " + prop}})
+			violations = append(violations, fmt.Sprintf("VIOLATION property=%s replay=%s\n  bounded stand-in %s, class %s: %s", prop, path, sd.Name, c, fs[0]["detail"]))
+		}
+		standinEv = append(standinEv, ev)
+	}
 	wall := time.Since(t0).Seconds()
 	// evidence
 	var assumed []string
@@ -294,6 +332,7 @@ func cmdCheck(args []string) {
 		"solver_seconds":           solverSecs,
 		"samples":                  samples,
 		"known_findings":           knownHit,
+		"bounded_standins":         standinEv,
 		"packages":                 pkgs,
 		"explanation":              "every obligation is generated from /repo's current working tree on this run; an obligation counts as discharged only if every path instance is unsat in at least one solver; cover:* obligations are vacuity probes that must not be unsat",
 	}
